@@ -353,7 +353,21 @@ def run_tree(case):
 
 # ------------------------------------------------------ broadcast functions
 CONTAINERS = ["scalar", "list", "tuple", "deque", "set", "stream", "generator", "range", "map",
-              "filter", "zip", "enumerate"]
+              "filter", "zip", "enumerate", "tuple-subclass", "list-subclass", "deque-subclass", "frozenset"]
+
+
+class Frame(tuple):
+  """User subclasses of the built-in containers: 'the same kind of container' is the subclass."""
+  def total(self):
+    return len(self)
+
+
+class Samples(list):
+  pass
+
+
+class Ring(deque):
+  pass
 DOMAIN = {
   "acos": [0.5, -0.25, 1.0], "asin": [0.5, -0.25, 1.0], "atanh": [0.5, -0.25, 0.0],
   "acosh": [1.0, 1.5, 2.5], "factorial": [0, 3, 5], "gamma": [0.5, 1.0, 4.0], "lgamma": [0.5, 1.0, 4.0],
@@ -454,6 +468,10 @@ def run_func(case):
   elif cont == "tuple": arg = tuple(xs)
   elif cont == "deque": arg = deque(xs)
   elif cont == "set": arg = set(xs)
+  elif cont == "tuple-subclass": arg = Frame(xs)
+  elif cont == "list-subclass": arg = Samples(xs)
+  elif cont == "deque-subclass": arg = Ring(xs)
+  elif cont == "frozenset": arg = frozenset(xs)
   elif cont == "stream": arg = Stream(list(xs))
   elif cont == "generator":
     src = CountingSource(xs)
@@ -506,7 +524,7 @@ def run_func(case):
       return bad("func:container-kind", "a broadcasting function must return the kind of container it was given",
                  type(arg).__name__, type(out).__name__)
     got = list(out)
-  if cont == "set":
+  if cont in ("set", "frozenset"):
     ok = len(got) == len(set(map(repr, scal))) and all(any(close(g, s) for s in scal) for g in got)
   else:
     ok = len(got) == len(scal) and all(close(g, s) for g, s in zip(got, scal))
